@@ -49,9 +49,10 @@ impl AR {
         let (history, coeffs) = if n >= coeff_len {
             (&data[n - coeff_len..], &self.coeffs[..])
         } else {
-            // maybe panic instead? or return NA
-            // return std::f64::NAN;
-            (data, &self.coeffs[..n])
+            // fewer observations than lags: the missing older observations count as being at
+            // the mean. The coefficients are stored reversed, so the n most recent lags are
+            // the last n entries.
+            (data, &self.coeffs[coeff_len - n..])
         };
         let centred = history
             .iter()
